@@ -21,16 +21,25 @@ type Case struct {
 	DryRun     bool     `json:"dry_run"`
 	Schema     bool     `json:"schema"`     // `schema apply` scenario instead of `migrate apply`
 	Variant    int      `json:"variant"`    // schema apply: which failing plan
+	// FailKind 1: the failing statement violates a foreign key (the journal references itself, the URL carries _fk=1):
+	// without a transaction the statement fails at once, inside one the violation is found when the file's transaction commits.
+	FailKind int `json:"fail_kind,omitempty"`
 }
 
 func id(f, j int) int { return (f+1)*10 + j + 1 }
 
-func stmt(f, j int, failing bool) string {
+func stmt(f, j int, failing bool, kind int) string {
 	if f == 0 && j == 0 {
 		if failing {
 			return "CREATE TABLE journal (id integer, id integer);\n" // fails: duplicate column name
 		}
+		if kind == 1 {
+			return "CREATE TABLE journal (id integer PRIMARY KEY, ref integer REFERENCES journal (id));\n"
+		}
 		return "CREATE TABLE journal (id integer);\n"
+	}
+	if failing && kind == 1 {
+		return fmt.Sprintf("INSERT INTO journal (id, ref) VALUES (%d, -1);\n", id(f, j)) // fails: no row -1
 	}
 	if failing {
 		return fmt.Sprintf("INSERT INTO missing_table (id) VALUES (%d);\n", id(f, j))
@@ -44,7 +53,7 @@ func (c Case) file(f int, fixed bool) string {
 		b.WriteString("-- atlas:txmode " + c.Directives[f] + "\n\n")
 	}
 	for j := 0; j < c.Shape[f]; j++ {
-		b.WriteString(stmt(f, j, !fixed && f == c.FailF && j == c.FailJ))
+		b.WriteString(stmt(f, j, !fixed && f == c.FailF && j == c.FailJ, c.FailKind))
 	}
 	return b.String()
 }
@@ -194,7 +203,11 @@ func checkCase(c Case) (Outcome, error) {
 	}
 	dbp := sb.Path("db.sqlite")
 	sqliteref.OpenFile(dbp) // lazily created by atlas as well
-	args := []string{"migrate", "apply", "--dir", "file://m", "--url", "sqlite://" + dbp, "--tx-mode", c.Mode}
+	url := "sqlite://" + dbp
+	if c.FailKind == 1 {
+		url += "?_fk=1"
+	}
+	args := []string{"migrate", "apply", "--dir", "file://m", "--url", url, "--tx-mode", c.Mode}
 	if c.Count > 0 {
 		args = append(args, strconv.Itoa(c.Count))
 	}
@@ -249,7 +262,7 @@ func checkCase(c Case) (Outcome, error) {
 	if err := write(true); err != nil {
 		return out, err
 	}
-	argsAll := []string{"migrate", "apply", "--dir", "file://m", "--url", "sqlite://" + dbp, "--tx-mode", c.Mode}
+	argsAll := []string{"migrate", "apply", "--dir", "file://m", "--url", url, "--tx-mode", c.Mode}
 	r2 := sb.Run(argsAll...)
 	if r2.Code != 0 {
 		return out, fmt.Errorf("after fixing the failing statement the re-run fails: %v\n state before the re-run: %v", r2, got)
